@@ -54,6 +54,22 @@ class Opaque:
         return hash(self.text)
 
 
+class FStr:
+    """an f-string with symbolic parts: a tuple of str / value pieces (adjacent literal pieces merged)"""
+    def __init__(self, parts):
+        self.parts = tuple(parts)
+        self.text = 'f"%s"' % ''.join(p if isinstance(p, str) else '{%s}' % (p.canon() if hasattr(p, 'canon') else getattr(p, 'text', p)) for p in self.parts)
+
+    def __eq__(self, o):
+        return isinstance(o, FStr) and len(self.parts) == len(o.parts) and all(a == b for a, b in zip(self.parts, o.parts))
+
+    def __hash__(self):
+        return hash(self.text)
+
+    def __repr__(self):
+        return self.text
+
+
 class Vec(list):
     """a NumPy vector of known length (np.broadcast_to(x, n), np.array(tuple)): arithmetic is elementwise, unlike tuple / list"""
     def __repr__(self):
@@ -79,7 +95,7 @@ def is_num(v):
 
 
 class PE:
-    def __init__(self, model, atoms=None, preds=None, max_depth=4, symbolic_names=True, call_hook=None, attr_hook=None, loop_hook=None, atoms_not_none=False, default_pred=None, compare_hook=None, sub_hook=None):
+    def __init__(self, model, atoms=None, preds=None, max_depth=4, symbolic_names=True, call_hook=None, attr_hook=None, loop_hook=None, atoms_not_none=False, default_pred=None, compare_hook=None, sub_hook=None, comp_hook=None):
         self.model = model
         self.atoms = atoms or {}            # normalised text -> value (P / const)
         self.preds = preds or {}            # normalised test text -> bool
@@ -89,6 +105,7 @@ class PE:
         self.loop_hook = loop_hook          # (pe, For stmt, env) -> True if it bound the loop targets itself (generic iteration of an unknown collection)
         self.symbolic_names = symbolic_names
         self.atoms_not_none = atoms_not_none    # symbolic values stand for objects: `v is None` is False (None is passed explicitly where wanted)
+        self.comp_hook = comp_hook              # (pe, comprehension node, iterable value, env, func, depth) -> value or NotImplemented (comprehension over a symbolic sequence)
         self.sub_hook = sub_hook                # (pe, node, base value, evaluated index) -> value or NotImplemented (subscript of a symbolic object)
         self.user = {}                          # per-path scratch for hooks (reset at the start of every path, copied to Outcome.user)
         self.compare_hook = compare_hook        # (pe, op, left value, right value) -> value or NotImplemented (elementwise comparisons that are data, not decisions)
@@ -485,7 +502,26 @@ class PE:
         if isinstance(e, ast.Call):
             return self.call(e, env, func, depth)
         if isinstance(e, ast.JoinedStr):
-            return Opaque('<fstring>')
+            parts = []
+            for v in e.values:
+                if isinstance(v, ast.Constant):
+                    x = str(v.value)
+                elif isinstance(v, ast.FormattedValue) and v.format_spec is None and v.conversion == -1:
+                    try:
+                        x = self.expr(v.value, env, func, depth)
+                    except (Incomplete, NeedDecision):
+                        raise
+                    if isinstance(x, (int, str)) and not isinstance(x, bool):
+                        x = str(x)
+                else:
+                    return Opaque('<fstring>')
+                if isinstance(x, str) and parts and isinstance(parts[-1], str):
+                    parts[-1] += x
+                else:
+                    parts.append(x)
+            if all(isinstance(x, str) for x in parts):
+                return ''.join(parts)
+            return FStr(parts)
         if isinstance(e, (ast.ListComp, ast.GeneratorExp)):
             if len(e.generators) == 1:
                 g = e.generators[0]
@@ -498,6 +534,10 @@ class PE:
                         if all(self.truth(c, env2, func, depth) for c in g.ifs):
                             out.append(self.expr(e.elt, env2, func, depth))
                     return out
+                if self.comp_hook is not None:
+                    r = self.comp_hook(self, e, it, env, func, depth)
+                    if r is not NotImplemented:
+                        return r
             return Opaque(norm(e))
         if isinstance(e, ast.Slice):
             return Opaque(norm(e))
@@ -633,8 +673,8 @@ class PE:
                     return isinstance(op, ast.Is)
                 if isinstance(other, basic) or isinstance(other, (list, tuple, dict)):
                     return isinstance(op, ast.IsNot)
-                if self.atoms_not_none and isinstance(other, (P, Opaque)):
-                    return isinstance(op, ast.IsNot)
+                if self.atoms_not_none and other is not None:
+                    return isinstance(op, ast.IsNot)     # symbolic objects (atoms, opaque values, hook-defined objects) are not None
                 return None
             return None
         if isinstance(op, (ast.In, ast.NotIn)):
@@ -686,6 +726,19 @@ class PE:
         if isinstance(e.func, ast.Attribute):
             recv_node = e.func.value
             m = e.func.attr
+            if m in ('append', 'extend') and isinstance(recv_node, ast.Name) and isinstance(env.get(recv_node.id), list) and len(args) == 1:
+                if m == 'append':
+                    env[recv_node.id] = type(env[recv_node.id])(list(env[recv_node.id]) + [args[0]])
+                    return None
+                if isinstance(args[0], (list, tuple)):
+                    env[recv_node.id] = type(env[recv_node.id])(list(env[recv_node.id]) + list(args[0]))
+                    return None
+            if m == 'index' and len(args) == 1 and isinstance(args[0], P) and not (isinstance(recv_node, ast.Name) and recv_node.id in ('np', 'math')):
+                recv = self.expr(recv_node, env, func, depth)
+                if isinstance(recv, (list, tuple)) and all(isinstance(x, P) for x in recv):
+                    hits = [i for i, x in enumerate(recv) if x == args[0]]
+                    if len(hits) == 1:
+                        return hits[0]
             if m in ('index', 'count') and not (isinstance(recv_node, ast.Name) and recv_node.id in ('np', 'math')):
                 recv = self.expr(recv_node, env, func, depth)
                 if isinstance(recv, (list, tuple)) and len(args) == 1 and isinstance(args[0], (str, int)):
@@ -726,6 +779,15 @@ class PE:
         if n in ('len', 'builtins.len') and args:
             if isinstance(args[0], (list, tuple, str, dict)):
                 return len(args[0])
+            if hasattr(args[0], 'length') and args[0].length is not None:
+                return args[0].length
+            if isinstance(e.args[0], ast.Name) and func.cls is not None and func.pos_params and e.args[0].id == func.pos_params[0] and depth < self.max_depth:
+                lm = self.model.find_method(func.cls, '__len__')
+                if lm is not None:
+                    kind, val, _ = self._run(lm, {lm.pos_params[0]: args[0]}, None, depth + 1)
+                    if kind == 'raise':
+                        raise Raised(val)
+                    return val
             lt = 'len(%s)' % (self.loc_text(e.args[0], env, func, depth) if isinstance(e.args[0], (ast.Name, ast.Attribute, ast.Subscript)) else norm(e.args[0]))
             if lt in self.atoms:
                 return self.atoms[lt]
@@ -802,6 +864,8 @@ class PE:
             return {'abs': abs, 'max': max, 'min': min}[n.split('.')[-1]](*args)
         # repository function: inline
         f = self.model.funcs.get(n) if n else None
+        if f is None and isinstance(e.func, ast.Name) and isinstance(env.get(e.func.id), Opaque) and env[e.func.id].text == '<closure %s>' % e.func.id:
+            f = self.model.funcs.get('%s.%s' % (func.qualname, e.func.id))      # a nested def of the current function (free variables read as atoms of their names)
         if f is None and isinstance(e.func, ast.Attribute) and isinstance(e.func.value, ast.Name) and e.func.value.id == 'self' and func.cls is not None:
             f = self.model.find_method(func.cls, e.func.attr)
             if f is not None:
